@@ -8,6 +8,8 @@ package cache_test
 //   - miniredis nodes whose commands are logged and whose outages are injected either as
 //     error replies (fast) or by closing / restarting the server (real "down, then back"),
 //   - the cleaner's timing wheel, replaced by one whose ticks the driver issues by hand,
+// (bursts of writes on different ids within one second and writes whose statement callback runs
+// a complete read before the statement are ordinary records of such histories),
 // and compares after every step (and after every second of a time step) what was returned,
 // how often the database was reached, which keys were removed from Redis and what Redis
 // holds (kind of value and TTL per key) with what the specification predicted.
@@ -19,6 +21,7 @@ import (
 	"encoding/json"
 	"fmt"
 	"os"
+	"runtime"
 	"sort"
 	"strings"
 	"sync"
@@ -383,6 +386,7 @@ func (e *env) reset() error {
 	if !kit.WaitFor(5*time.Second, func() bool { return cache.VerifCleanInFlight() == 0 }) {
 		return fmt.Errorf("cleaner tasks of the previous history did not finish")
 	}
+	cache.VerifRelease()
 	e.tk = newVTicker()
 	w, err := cache.VerifSwapWheel(e.tk)
 	if err != nil {
@@ -452,34 +456,62 @@ func (e *env) setUp(n *mnode, up bool) error {
 	return nil
 }
 
-// tick issues one tick of the cleaner's wheel and returns once everything the tick caused
-// has happened: see cache.VerifSentinel for why the sentinel is a barrier.
-func (e *env) tick() error {
-	e.nsent++
-	sent := cache.VerifSentinel{C: make(chan struct{})}
-	if err := e.wheel.SetTimer(fmt.Sprintf("\x00sentinel-%d", e.nsent), sent, time.Second); err != nil {
-		return fmt.Errorf("sentinel: %v", err)
+// noop makes the wheel's loop accept a message that changes nothing; the loop is sequential, so
+// everything it accepted earlier (a tick, the SetTimer calls of finished cleaner tasks) has been
+// carried out when this returns.
+func (e *env) noop() error {
+	done := make(chan error, 1)
+	go func() { done <- e.wheel.RemoveTimer("\x00barrier") }()
+	select {
+	case err := <-done:
+		return err
+	case <-time.After(30 * time.Second):
+		return fmt.Errorf("the wheel's loop does not accept messages\n%s", kit.Stacks())
 	}
+}
+
+// tick issues one tick of the cleaner's wheel and returns once everything the tick caused has
+// happened.  The barrier does not depend on how the wheel treats a timer of the driver (see
+// cache.VerifHold): the tasks the tick collects wait in front of clean until the driver has
+// counted them in the wheel's registry; then they are let through, the driver waits until clean
+// has taken over that many, until the task runner is idle, and until the wheel has accepted
+// the timers that failing tasks set again.  It returns the number of tasks the tick fired.
+func (e *env) tick() (int, error) {
+	// (a timer set by the operation before -- AddCleanTask returns when the wheel's loop has taken
+	// the request, not when it is registered -- is in the registry once the loop takes the next one)
+	if err := e.noop(); err != nil {
+		return 0, err
+	}
+	before, handed0 := e.wheel.VerifRegistered(), cache.VerifHanded()
+	cache.VerifHold()
+	defer cache.VerifRelease()
 	select {
 	case e.tk.c <- time.Time{}:
-	case <-time.After(10 * time.Second):
-		return fmt.Errorf("tick not accepted by the wheel")
+	case <-time.After(30 * time.Second):
+		return 0, fmt.Errorf("tick not accepted by the wheel\n%s", kit.Stacks())
 	}
-	select {
-	case <-sent.C:
-	case <-time.After(10 * time.Second):
-		return fmt.Errorf("sentinel did not fire on its tick")
+	if err := e.noop(); err != nil {
+		return 0, err
 	}
-	if !kit.WaitFor(30*time.Second, func() bool { return cache.VerifCleanInFlight() == 0 }) {
-		return fmt.Errorf("cleaner tasks did not finish\n%s", kit.Stacks())
+	fired := before - e.wheel.VerifRegistered()
+	if fired < 0 {
+		return 0, fmt.Errorf("tick %d: the wheel's registry grew from %d timers by %d while no task could run", e.ticks+1, before, -fired)
 	}
-	// the wheel's loop is sequential: once it accepts this no-op, every SetTimer issued by the
-	// finished cleaner tasks has been carried out
-	if err := e.wheel.RemoveTimer("\x00barrier"); err != nil {
-		return fmt.Errorf("barrier: %v", err)
+	cache.VerifRelease()
+	if !kit.WaitFor(60*time.Second, func() bool { return cache.VerifHanded() >= handed0+fired }) {
+		return fired, fmt.Errorf("tick %d: %d tasks fired, the cleaner took over %d\n%s", e.ticks+1, fired, cache.VerifHanded()-handed0, kit.Stacks())
+	}
+	if !kit.WaitFor(60*time.Second, func() bool { return cache.VerifCleanInFlight() == 0 }) {
+		return fired, fmt.Errorf("cleaner tasks did not finish\n%s", kit.Stacks())
+	}
+	if err := e.noop(); err != nil {
+		return fired, err
+	}
+	if n := cache.VerifHanded() - handed0; n != fired {
+		return fired, fmt.Errorf("tick %d: the wheel's registry lost %d timers, but %d tasks were executed", e.ticks+1, fired, n)
 	}
 	e.ticks++
-	return nil
+	return fired, nil
 }
 
 // ---------------------------------------------------------------- operations
@@ -691,6 +723,18 @@ func (cr *caseRunner) runOnce(c kit.Case) (v kit.Verdict) {
 		return v
 	}
 	hadFail := false // some removal has failed so far in this history
+	curStep, curOp := 0, "init"
+	// a panic raised by the code under test on the driver's goroutine is a behaviour of that code
+	defer func() {
+		if r := recover(); r != nil {
+			where, own := panicOrigin()
+			if own {
+				v = infra(fmt.Sprintf("step %d %s: the driver panicked: %v at %s", curStep, curOp, r, where))
+				return
+			}
+			v = fail(curStep, "C06:panic:"+curOp, fmt.Sprintf("step %d %s: panic %v at %s", curStep, curOp, r, where))
+		}
+	}()
 	var cfgE, cfgNF expiryOpt
 	ctxEnded := map[string]bool{} // keys whose removal failed under a context that has ended since
 	for i, st := range c.Steps {
@@ -722,11 +766,16 @@ func (cr *caseRunner) runOnce(c kit.Case) (v kit.Verdict) {
 			continue
 		}
 		cr.rep.Count("op_"+op, 1)
+		curStep, curOp = i, op
 		q0p, q0i, q0x := e.qp, e.qi, e.qx
 		var gotRes string
 		var gotRow row
 		var gotErr error
 		wantX := 0
+		var pre map[string]any // the read inside a write's statement callback, and what it returned
+		var preRow row
+		var preRes string
+		var preErr error
 		switch op {
 		case "qrow":
 			gotRow, gotRes, gotErr = e.queryRow(kit.Num(st["id"]))
@@ -741,7 +790,12 @@ func (cr *caseRunner) runOnce(c kit.Case) (v kit.Verdict) {
 		case "put", "delete":
 			id := int64(kit.Num(st["id"]))
 			wantX = 1
+			pre, _ = st["pre"].(map[string]any)
 			write := func() {
+				if pre != nil {
+					// a complete read inside the statement callback, before the statement
+					preRow, preRes, preErr = e.readOf(pre)
+				}
 				e.qx++
 				if op == "put" {
 					e.db[id] = row{Id: id, Name: kit.Str(st["name"]), Data: kit.Str(st["data"])}
@@ -811,7 +865,8 @@ func (cr *caseRunner) runOnce(c kit.Case) (v kit.Verdict) {
 				for _, nd := range e.nodes {
 					nd.m.FastForward(time.Second)
 				}
-				if err := e.tick(); err != nil {
+				nfired, err := e.tick()
+				if err != nil {
 					return infra(err.Error())
 				}
 				got, wnt := strings.Join(e.delsNow(), " "), strings.Join(wantDels(want[t]), " ")
@@ -828,8 +883,17 @@ func (cr *caseRunner) runOnce(c kit.Case) (v kit.Verdict) {
 					return fail(i, key, fmt.Sprintf("step %d (%s %d s), second %d (wheel tick %d): Redis saw removals {%s}, specification {%s}",
 						i, op, n, t, e.ticks, got, wnt))
 				}
+				if len(want[t]) >= 2 && nfired < len(want[t]) {
+					// (cannot be: the removals seen agree with the specification)
+					return infra(fmt.Sprintf("second %d: %d retries observed at Redis, the wheel fired %d tasks", t, len(want[t]), nfired))
+				}
 				if wnt != "" {
 					cr.rep.Count("retry_del_seconds", 1)
+					for _, m := range []int{2, 3, 10} {
+						if len(want[t]) >= m {
+							cr.rep.Count(fmt.Sprintf("retry_fires_ge%d", m), 1)
+						}
+					}
 					for _, f := range want[t] {
 						for _, k := range kit.List(f.(map[string]any)["keys"]) {
 							if ctxEnded[kit.Str(k)] {
@@ -864,6 +928,52 @@ func (cr *caseRunner) runOnce(c kit.Case) (v kit.Verdict) {
 		}
 		dq := fmt.Sprintf("primary=%d index=%d exec=%d", e.qp-q0p, e.qi-q0i, e.qx-q0x)
 		wq := fmt.Sprintf("primary=%d index=%d exec=%d", kit.Num(st["qp"]), kit.Num(st["qi"]), wantX)
+		// a write with a read inside its statement callback (before the statement)
+		staleAfter := func() (string, bool) { return "", false }
+		if pre != nil && resOK {
+			pop := kit.Str(pre["op"])
+			cr.rep.Count("write_with_inner_"+pop, 1)
+			if kit.Num(pre["qp"])+kit.Num(pre["qi"]) > 0 {
+				cr.rep.Count("inner_read_db", 1)
+			}
+			if preRes == "" {
+				return fail(i, "C06:statement-not-executed:"+op, fmt.Sprintf("step %d %s: the statement callback was not called", i, opArgs(st)))
+			}
+			wres, ploose := kit.Str(pre["res"]), kit.Bool(pre["loose"])
+			pOK := preRes == wres
+			if pOK && wres == "row" {
+				w := pre["row"].(map[string]any)
+				pOK = preRow == row{Id: int64(kit.Num(w["id"])), Name: kit.Str(w["name"]), Data: kit.Str(w["data"])}
+			}
+			if !pOK && ploose {
+				// (a dirty key was consulted: the row before the statement is accepted as well; the write
+				// has been carried out, but the rest of the history can no longer be predicted)
+				cr.rep.Count("abandoned_loose", 1)
+				return v
+			}
+			if !pOK {
+				key := "C06:read-in-write:" + pop
+				if wres == "cacheerr" {
+					key = "C06:cache-error-not-returned:in-write:" + pop
+				}
+				return fail(i, key, fmt.Sprintf("step %d %s: the read inside the statement callback (before the statement) returned %s %+v (err=%v), specification %s %v",
+					i, opArgs(st), preRes, preRow, preErr, wres, pre["row"]))
+			}
+			stepFailed := len(wantDels(kit.List(st["dels"]))) < len(kit.List(st["keys"]))
+			if !hadFail && !stepFailed && !ploose {
+				// the write has returned and no removal has failed in this history: the same read, issued
+				// now, must give the database's current row.  (Used only to name a disagreement of this
+				// step by what the statement forbids; the history ends there.)
+				staleAfter = func() (string, bool) {
+					r, res, err := e.readOf(pre)
+					cur, curRes := e.truth(pop, pre)
+					if res == "cacheerr" || (res == curRes && (curRes != "row" || r == cur)) {
+						return "", false
+					}
+					return fmt.Sprintf("; the same read issued after the write had returned gave %s %+v (err=%v), the database has %s %+v", res, r, err, curRes, cur), true
+				}
+			}
+		}
 		if loose && (!resOK || dq != wq) {
 			// the statement allows a stale value here (a removal of a consulted key failed and
 			// has not been repeated successfully yet): accept the current row as well, but the
@@ -893,7 +1003,11 @@ func (cr *caseRunner) runOnce(c kit.Case) (v kit.Verdict) {
 			if wantRes == "cacheerr" {
 				key = "C06:fall-through-to-db:" + op
 			}
-			return fail(i, key, fmt.Sprintf("step %d %s: database callbacks %s, specification %s", i, opArgs(st), dq, wq))
+			msg := fmt.Sprintf("step %d %s: database callbacks %s, specification %s", i, opArgs(st), dq, wq)
+			if more, stale := staleAfter(); stale {
+				key, msg = "C06:stale-read:after-write-overlapped-by-read:"+kit.Str(pre["op"]), msg+more
+			}
+			return fail(i, key, msg)
 		}
 		if op != "adv" && op != "finish" {
 			got, wnt := strings.Join(e.delsNow(), " "), strings.Join(wantDels(kit.List(st["dels"])), " ")
@@ -933,7 +1047,11 @@ func (cr *caseRunner) runOnce(c kit.Case) (v kit.Verdict) {
 			if w != 0 && g != 0 && w%10 == g%10 {
 				key = "C06:ttl:" + kindNames[w%10]
 			}
-			return fail(i, key, fmt.Sprintf("step %d %s: Redis holds %s = %s, specification %s", i, opArgs(st), lk, descr(g), descr(w)))
+			msg := fmt.Sprintf("step %d %s: Redis holds %s = %s, specification %s", i, opArgs(st), lk, descr(g), descr(w))
+			if more, stale := staleAfter(); stale {
+				key, msg = "C06:stale-read:after-write-overlapped-by-read:"+kit.Str(pre["op"]), msg+more
+			}
+			return fail(i, key, msg)
 		}
 		for lk := range got {
 			if _, ok := wantCache[lk]; !ok {
@@ -951,6 +1069,48 @@ func (cr *caseRunner) runOnce(c kit.Case) (v kit.Verdict) {
 		}
 	}
 	return v
+}
+
+// readOf executes a read given by its descriptor (op qrow/qindex with id/name).
+func (e *env) readOf(d map[string]any) (row, string, error) {
+	var r row
+	var res string
+	var err error
+	switch kit.Str(d["op"]) {
+	case "qrow":
+		r, res, err = e.queryRow(kit.Num(d["id"]))
+	case "qindex":
+		r, res, err = e.queryIndex(kit.Str(d["name"]))
+	default:
+		panic("verif driver: unknown read " + kit.Str(d["op"]))
+	}
+	if res == "ok" {
+		res = "row"
+	}
+	return r, res, err
+}
+
+// panicOrigin names the function that raised the panic being recovered and tells whether it
+// belongs to the driver (its own files / the kit) rather than to the code under test.
+func panicOrigin() (string, bool) {
+	pcs := make([]uintptr, 64)
+	n := runtime.Callers(2, pcs)
+	fr := runtime.CallersFrames(pcs[:n])
+	seenPanic := false
+	for {
+		f, more := fr.Next()
+		if strings.HasPrefix(f.Function, "runtime.") {
+			if f.Function == "runtime.gopanic" || strings.HasPrefix(f.Function, "runtime.panic") || f.Function == "runtime.sigpanic" || f.Function == "runtime.goPanicIndex" {
+				seenPanic = true
+			}
+		} else if seenPanic {
+			own := strings.Contains(f.File, "zz_verif_") || strings.Contains(f.Function, "verifkit")
+			return fmt.Sprintf("%s (%s:%d)", f.Function, f.File, f.Line), own
+		}
+		if !more {
+			return "unknown", true
+		}
+	}
 }
 
 // truth is the current database content for a read (used only for loose reads).
@@ -977,13 +1137,24 @@ func opArgs(st kit.M) string {
 	case "qindex":
 		return fmt.Sprintf("qindex(name=%s)", kit.Str(st["name"]))
 	case "put":
-		return fmt.Sprintf("put(id=%d,name=%s,data=%s keys=%v)", kit.Num(st["id"]), kit.Str(st["name"]), kit.Str(st["data"]), st["keys"])
+		return fmt.Sprintf("put(id=%d,name=%s,data=%s keys=%v%s)", kit.Num(st["id"]), kit.Str(st["name"]), kit.Str(st["data"]), st["keys"], preArgs(st))
 	case "delete":
-		return fmt.Sprintf("delete(id=%d keys=%v)", kit.Num(st["id"]), st["keys"])
+		return fmt.Sprintf("delete(id=%d keys=%v%s)", kit.Num(st["id"]), st["keys"], preArgs(st))
 	case "delcache":
 		return fmt.Sprintf("delcache(%v)", st["keys"])
 	}
 	return kit.Str(st["op"])
+}
+
+func preArgs(st kit.M) string {
+	pre, ok := st["pre"].(map[string]any)
+	if !ok {
+		return ""
+	}
+	if kit.Str(pre["op"]) == "qrow" {
+		return fmt.Sprintf(" callback-reads=qrow(id=%d)", kit.Num(pre["id"]))
+	}
+	return fmt.Sprintf(" callback-reads=qindex(name=%s)", kit.Str(pre["name"]))
 }
 
 // envFromEnviron builds the environment described by VERIF_C06_* variables.
